@@ -31,7 +31,7 @@ var spec = lib.Spec{
 	Rule: "inputs (<= 64 KiB) from five rapid generators: (soup) random sequences over a fragment alphabet of identifiers/keywords, ints, string literals with f/r/other prefixes, " +
 		"single and triple quotes, brace/dollar/backslash bodies and missing terminators, punctuation, whitespace incl. tabs, CR, NUL, invalid UTF-8, comments; (literals) chains of 1-4 adjacent " +
 		"string/f-string/raw-string literals in 18 expression contexts; (mutated) grammar-generated near-valid programs (def/for/if/elif/else, comprehensions, lambdas, slices, inline if, type annotations, aliases, docstrings) " +
-		"with 0-4 token mutations (delete, duplicate, swap, insert, replace, break indentation, glue, truncate); (stress) 25 nesting shapes repeated up to depth 2000 (quick) / the 64 KiB limit (thorough); (long) very long tokens and lines; " +
+		"with 0-4 token mutations (delete, duplicate, swap, insert, replace, break indentation, glue, truncate); (stress) 25 nesting shapes repeated up to depth 2000 (thorough: 1% of them up to 20000, 0.25% up to the 64 KiB limit); (long) very long tokens and lines (up to 16000 bytes; thorough: a tenth up to 60000); " +
 		"thorough tier adds Go native coverage-guided fuzzing seeded with every BUILD/build_defs file of the repository. " +
 		"Oracle: asp.NewParser(state).ParseData on the bytes (also stored in a real file so that positions resolve) returns within 60 s, does not panic, and returns nil or asp's positioned error (>= 1 frame, line >= 1 and within the file) that is not a runtime.Error; rendering the error does not panic. " +
 		"Non-trivial = lexes to >= 5 tokens and is rejected, or contains an f-string or adjacent string literals; distinct = input bytes",
@@ -171,23 +171,38 @@ func run(c Case, o *lib.Obs) error {
 }
 
 func gen(t *rapid.T) Case {
-	maxDepth, maxLen := 2000, 16000
+	// shares in 1/1000: the stress and long generators are expensive (deep recursion in the parser, and
+	// parseFileInput renders a full stack trace for every rejected input), so they get a small share.
+	maxDepth, maxLen, stressShare, longShare := 2000, 16000, 30, 10
 	if lib.Thorough() {
-		maxDepth, maxLen = maxInput, 60000
+		stressShare, longShare = 10, 3
 	}
 	var c Case
-	switch k := rapid.IntRange(0, 99).Draw(t, "mode"); {
-	case k < 25:
+	switch k := rapid.IntRange(0, 999).Draw(t, "mode"); {
+	case k < longShare:
+		if lib.Thorough() && rapid.IntRange(0, 9).Draw(t, "longest") == 0 {
+			maxLen = 60000
+		}
+		c = Case{Data: genLongLine(t, maxLen), Mode: "long"}
+	case k < longShare+stressShare:
+		if lib.Thorough() {
+			// deeper nesting is rare: the parser hoists operators quadratically and renders a full stack
+			// trace for every rejected input, so one such case costs seconds
+			switch f := rapid.IntRange(0, 399).Draw(t, "deep"); {
+			case f == 0:
+				maxDepth = maxInput // up to the 64 KiB input bound
+			case f < 5:
+				maxDepth = 20000
+			}
+		}
+		c = Case{Data: genStress(t, maxDepth), Mode: "stress"}
+	case k < 290:
 		c = Case{Data: genSoup(t), Mode: "soup"}
-	case k < 50:
+	case k < 540:
 		c = Case{Data: genLiterals(t), Mode: "literals"}
-	case k < 96:
+	default:
 		d, _ := genMutated(t, genProgramTokens(t))
 		c = Case{Data: d, Mode: "mutated"}
-	case k < 99:
-		c = Case{Data: genStress(t, maxDepth), Mode: "stress"}
-	default:
-		c = Case{Data: genLongLine(t, maxLen), Mode: "long"}
 	}
 	if len(c.Data) > maxInput {
 		c.Data = c.Data[:maxInput]
@@ -268,7 +283,7 @@ func nativeFuzz(t *testing.T) {
 	rec := lib.Rec(spec)
 	fuzztime := os.Getenv("VERIF_FUZZTIME")
 	if fuzztime == "" {
-		fuzztime = "8m"
+		fuzztime = "6m"
 	}
 	pkgDir, _ := os.Getwd()
 	corpus := filepath.Join(pkgDir, "testdata", "fuzz", "FuzzParse")
